@@ -220,6 +220,24 @@ func runCheck(o checkOpts) int {
 		}
 	}
 
+	// bounded drivers: replay / fall-back / thorough differential
+	needDriver := o.tier == "thorough" || len(undecided) > 0
+	for _, n := range names {
+		if agg[n].verdict != "discharged" && isKnown(n) == nil {
+			needDriver = true
+		}
+	}
+	var drv []DriverRun
+	if needDriver {
+		drv = runDrivers(o)
+	}
+	driverFailed := false
+	for _, d := range drv {
+		if d.Failed {
+			driverFailed = true
+		}
+	}
+	e.driverRuns = drv
 	replayDir := filepath.Join(o.verif, "out", "replay")
 	os.MkdirAll(replayDir, 0o755)
 	nReplay := 0
@@ -253,7 +271,7 @@ func runCheck(o checkOpts) int {
 		}
 		nReplay++
 		rp := filepath.Join(replayDir, fmt.Sprintf("%s-%d.json", o.prop, nReplay))
-		concrete := e.tryReplay(o, bad, rp)
+		concrete := e.tryReplay(o, bad, rp) || driverFailed
 		suffix := ""
 		if !concrete {
 			suffix = " no-failing-input-found"
@@ -287,6 +305,25 @@ func runCheck(o checkOpts) int {
 	}
 	if exit == 0 && (vacuous > 0) {
 		exit = 2
+	}
+	if violations == 0 && driverFailed {
+		// no obligation could be blamed (undecided function, or thorough-tier
+		// differential): the bounded driver found a concrete failing input on
+		// the real code
+		nReplay++
+		rp := filepath.Join(replayDir, fmt.Sprintf("%s-%d.json", o.prop, nReplay))
+		rec := map[string]interface{}{"property": o.prop, "obligation": "(none: found by the bounded driver)", "undecided": undecided, "drivers": drv, "concrete_failing_input": true}
+		b, _ := json.MarshalIndent(rec, "", " ")
+		os.WriteFile(rp, append(b, '\n'), 0o644)
+		first := ""
+		for _, d := range drv {
+			if d.Failed && len(d.Fails) > 0 {
+				first = d.Fails[0]
+			}
+		}
+		fmt.Printf("VIOLATION property=%s replay=%s found-by=bounded-driver %s\n", o.prop, rp, trunc(first, 200))
+		violations++
+		exit = 1
 	}
 	if exit == 0 && len(undecided) > 0 {
 		exit = 2
@@ -394,6 +431,13 @@ func runCheck(o checkOpts) int {
 		"ledger_obligations":   len(ledger.Obligations),
 		"explanation":          "every obligation generated from /repo's working tree for the functions under contract of this property was sent to the solver portfolio; discharged == obligations means all were refuted-negation (unsat)",
 	}
+	if len(drv) > 0 {
+		var ds []map[string]interface{}
+		for _, d := range drv {
+			ds = append(ds, map[string]interface{}{"driver": d.File, "package_dir": d.PkgDir, "ran": d.Ran, "failed": d.Failed, "seconds": round2(d.Seconds), "label": "bounded (small-scope enumeration); never counted as proved"})
+		}
+		cov["bounded_drivers"] = ds
+	}
 	for k, v := range e.extraCoverage[o.prop] {
 		cov[k] = v
 	}
@@ -462,6 +506,14 @@ func (e *Engine) tryReplay(o checkOpts, ob *Obligation, path string) bool {
 		rec["replay"] = res
 		if res != nil && res.Reproduced {
 			concrete = true
+		}
+	}
+	if len(e.driverRuns) > 0 {
+		rec["drivers"] = e.driverRuns
+		for _, d := range e.driverRuns {
+			if d.Failed {
+				concrete = true
+			}
 		}
 	}
 	rec["concrete_failing_input"] = concrete
